@@ -4,7 +4,7 @@ import mir
 import mirdump
 from engine import Unsupported
 from scen_sys import Sys
-from prog_entry import EntryProgram, ENTRY_POINTS, STRATEGY, tail_ops, oracle_entry, outcome
+from prog_entry import EntryProgram, ENTRY_POINTS, STRATEGY, tail_ops, oracle_entry, outcome, BLOCKING_ENTRY_POINTS, block_on_flavor, blocking_ops
 
 RUNTIMES = (('tokio_runtime', 'TokioSpawner', None), ('async_runtime', 'AsyncStdSpawner', 'async_runtime'), ('smol_runtime', 'SmolSpawner', 'smol_runtime'))
 
@@ -79,6 +79,53 @@ def run(enums, repo, tier):
             for k, v in e.stats.opaque.items():
                 stats['opaque'][k] = stats['opaque'].get(k, 0) + v
             stats['programs'].append(dict(runtime=feat, entry_point=ep, script=[list(o) for o in scripts['c1']], schedules=n))
+    # ---- programs driven by hannibal::runtime::block_on (#[hannibal::main]) whose spawning task waits for the actor
+    # WITHOUT yielding: the kind of runtime block_on builds is taken from executing runtime::block_on itself
+    stats['block_on'] = {}
+    for (feat, spawner, features) in RUNTIMES:
+        text, info = mirdump.dump(repo, features=features)
+        fs = mir.parse_mir(text)
+        try:
+            flavor, how = block_on_flavor(Sys(fs, enums, repo), feat)
+        except Unsupported as ex:
+            stats['unsupported'].append(f"{feat}:block_on: {ex}")
+            continue
+        stats['block_on'][feat] = {'flavor': flavor, 'from': how}
+        for ep in BLOCKING_ENTRY_POINTS:
+            sy = Sys(fs, enums, repo)
+            sy.spawner = spawner
+            if ep in STRATEGY:
+                sy.strategy = STRATEGY[ep]
+            scripts = {'c1': blocking_ops(ep)}
+            p = EntryProgram(sy, None, scripts, max_steps=60)
+            p.max_preemptions = 2
+            p.thread_flavor = flavor
+            n = 0
+            name = 'blocking_' + ep
+            try:
+                st = p.setup()
+                for leaf in p.explore(st):
+                    n += 1
+                    tr = leaf.events[leaf.events.index(('setup_done',)) + 1:]
+                    if leaf.status == 'truncated':
+                        stats['truncated'] += 1
+                        continue
+                    for m in oracle_entry(tr, leaf.status, ep):
+                        results.append(dict(prog=f"{feat}:{name}", msg=m, trace=tr, choices=[]))
+                    if leaf.status == 'quiescent':
+                        outcomes.setdefault(name, {}).setdefault(feat, set()).add(outcome(tr))
+                    distinct.add(hash((feat, name, tuple(tr))))
+            except Unsupported as ex:
+                stats['unsupported'].append(f"{feat}:{name}: {ex}")
+            e = sy.eng
+            stats['paths'] += n
+            stats['steps'] += e.stats.steps
+            stats['solver_calls'] += e.stats.solver_calls
+            stats['solver_s'] += e.stats.solver_time
+            stats['functions'] |= e.stats.functions
+            for k, v in e.stats.modelled.items():
+                stats['modelled'][k] = stats['modelled'].get(k, 0) + v
+            stats['programs'].append(dict(runtime=feat, program=name, entry_point=None, block_on_runtime=flavor, script=[list(o) for o in scripts['c1']], schedules=n))
     # ---- the timing-independent program family of the other properties, on every runtime: timers, owning handles,
     # registry, children (everything that goes through the runtime's spawn / sleep / join primitives)
     import run_sys
@@ -122,12 +169,18 @@ def run(enums, repo, tier):
             for k, v in e.stats.opaque.items():
                 stats['opaque'][k] = stats['opaque'].get(k, 0) + v
             stats['programs'].append(dict(runtime=feat, program=name, scripts={k: [list(o) for o in v] for k, v in spec['scripts'].items()}, started_actions=[list(a) for a in spec['started_actions']], schedules=n))
-    # same observable outcome on every runtime
+    # same observable outcome on every runtime (the runtime that deviates from the other two is the one reported;
+    # tokio is the reference when all three differ)
     for ep, per in outcomes.items():
-        base = per.get('tokio_runtime')
+        groups = {}
         for feat, oc in per.items():
-            if base is not None and oc != base:
-                results.append(dict(prog=f"{feat}:{ep}", msg=f"{ep}: the observable outcomes on {feat} differ from tokio_runtime", trace=[('outcomes', str(sorted(oc))[:400], str(sorted(base))[:400])], choices=[]))
+            groups.setdefault(frozenset(oc), []).append(feat)
+        ref = next((fs_ for fs_ in groups.values() if len(fs_) >= 2), None) or [f for f in per if f == 'tokio_runtime'] or list(per)[:1]
+        base = per[ref[0]]
+        for feat, oc in per.items():
+            if oc != base:
+                results.append(dict(prog=f"{feat}:{ep}", msg=f"{ep}: the observable outcomes on {feat} differ from {' and '.join(ref)}",
+                                    trace=[('outcomes', str(sorted(oc, key=str))[:400], str(sorted(base, key=str))[:400])], choices=[]))
     # ---- native side: the same entry points and scenarios on the real runtimes (hv-entry, built per runtime feature)
     import native_entry
     stats['traces_validated_against_impl'] = 0
